@@ -94,6 +94,39 @@ def run(ctx):
         crosscheck(ctx, "C01.R3", MT + ".BaseMatcher.addValue", REF,
                    "addValue", MT + ".BaseMatcher",
                    "key search, single-value guard, store")
+    from rules.common import crosscheck_many
+    crosscheck_many(ctx, "C01.R2", [
+        (INF + ".UnboundedThing.__gt__", "unbounded_gt",
+         INF + ".UnboundedThing", "Unbounded exceeds every number"),
+        (INF + ".UnboundedThing.__eq__", "unbounded_eq",
+         INF + ".UnboundedThing", "Unbounded equals only itself"),
+        (INF + ".KeyInfo.__init__", "keyinfo_init", INF + ".KeyInfo",
+         "a key is single-valued (maxOccurs 1)"),
+        (INF + ".MultiKeyInfo.__init__", "multikeyinfo_init",
+         INF + ".MultiKeyInfo", "a multikey keeps its bounds"),
+        (INF + ".BaseKeyInfo.__init__", "basekeyinfo_init",
+         INF + ".BaseKeyInfo", "bounds passed to BaseInfo"),
+        (INF + ".BaseInfo.issection", "const_false", INF + ".BaseInfo",
+         "keys are not sections"),
+        (INF + ".SectionInfo.issection", "const_true", INF + ".SectionInfo",
+         "section slots are sections"),
+        (INF + ".SchemaType.issection", "const_true", INF + ".SchemaType",
+         "the schema is a section"),
+        (INF + ".BaseInfo.isabstract", "const_false", INF + ".BaseInfo",
+         "infos are concrete"),
+        (INF + ".SectionType.isabstract", "const_false",
+         INF + ".SectionType", "section types are concrete"),
+        (INF + ".AbstractType.isabstract", "const_true",
+         INF + ".AbstractType", "abstract types are abstract"),
+        (INF + ".SectionType.__len__", "sectiontype_len",
+         INF + ".SectionType", "children count"),
+        (INF + ".SectionType.__getitem__", "sectiontype_getitem",
+         INF + ".SectionType", "children by index"),
+        (INF + ".SectionType.__iter__", "sectiontype_iter",
+         INF + ".SectionType", "children in schema order"),
+        (INF + ".SectionType.getinfo", "getinfo", INF + ".SectionType",
+         "unknown key refused"),
+    ])
     crosscheck(ctx, "C01.R3", MT + ".BaseMatcher.addSection", REF,
                "addSection", MT + ".BaseMatcher",
                "name reuse refused before registration and slot search")
